@@ -107,6 +107,8 @@ type State struct {
 	pools   map[int][]Value // sync.Pool object id -> LIFO list
 	goDeferred []deferRec
 	notes   []string
+	violated bool // an assertion failed or a panic escaped on this path
+	completed bool // the harness function returned normally on this path
 	dom     map[*Term]*byteDom
 	domOwned bool
 	clock   int64
@@ -118,7 +120,7 @@ func (e *Engine) cloneState(st *State) *State {
 	e.epochSeq++
 	st.epoch = e.epochSeq // parent gets a new epoch too: all pages become shared
 	e.epochSeq++
-	n := &State{epoch: e.epochSeq, nobj: st.nobj, pc: st.pc, steps: st.steps, model: st.model, dom: st.dom, clock: st.clock}
+	n := &State{epoch: e.epochSeq, nobj: st.nobj, pc: st.pc, steps: st.steps, model: st.model, dom: st.dom, clock: st.clock, violated: st.violated}
 	st.domOwned = false
 	n.pages = make([]*page, len(st.pages))
 	copy(n.pages, st.pages)
